@@ -1151,8 +1151,46 @@ func callerArgTerms(c *Ctx, f *ssa.Function, p *ssa.Parameter, depth int) []*cor
 // constant unit); a decoder returns the parsed number itself or, only when the key is absent or not a number, its default:
 // no path may replace a well-formed number by the default or transform it (the range decision belongs to the library, which
 // rejects); and the handler passes that literal unmodified to RunTraceroute behind err == nil.
+// checkBoolDecoders is R19.5b (shared with C17 R17.1): the HTTP front end's boolean query decoder hands back what strconv.ParseBool
+// made of the value (1, t, T, TRUE, true, True and their false counterparts) and its default otherwise. A hand-rolled comparison
+// accepts fewer spellings: `skip-private-hops=1` or `=True` would silently become the default and the flag would not reach the run.
+func checkBoolDecoders(c *Ctx, rule string) {
+	R := c.R
+	sp := c.P.SSAPkgs["server"]
+	n := 0
+	for _, g := range c.P.ModFuncs {
+		if sp == nil || core.FuncPkg(g) != sp.Pkg || g.Parent() != nil || len(g.Params) == 0 || g.Signature.Results().Len() != 1 || len(g.Blocks) == 0 {
+			continue
+		}
+		if _, ok := g.Params[0].Type().Underlying().(*types.Map); !ok {
+			continue
+		}
+		if bt, ok := g.Signature.Results().At(0).Type().Underlying().(*types.Basic); !ok || bt.Kind() != types.Bool {
+			continue
+		}
+		n++
+		fn := core.FuncName(g)
+		parsed, handRolled := false, ""
+		rps, _ := core.ReturnPaths(c.P, g, 2000)
+		for _, rp := range rps {
+			r := rp.Results[0]
+			switch {
+			case r.Op == "extract" && r.Name == "0" && len(r.Args) == 1 && r.Args[0].Op == "call" && r.Args[0].Name == "strconv.ParseBool":
+				parsed = true
+			case r.Op == "param":
+				// the default
+			case r.Op == "const":
+				handRolled = r.String()
+			}
+		}
+		R.Check(parsed && handRolled == "", rule, fn+"#bool-decoder", g.Pos(), fn, "boolean query values are decoded by strconv.ParseBool; anything else yields the default", fmt.Sprintf("the boolean query decoder does not return strconv.ParseBool's verdict (uses ParseBool=%v, returns the constant %s on some path): spellings such as 1 / t / True are no longer understood and silently become the default, so a flag set that way never reaches the run", parsed, handRolled))
+	}
+	R.Floor(rule+":bool-decoders", n, 1)
+}
+
 func checkHTTPDecoding(c *Ctx) {
 	R := c.R
+	checkBoolDecoders(c, "R19.5")
 	f := c.P.Func("server.parseTracerouteParams")
 	if f == nil {
 		R.Fail("R19.5", "server.parseTracerouteParams#anchor", 0, "", "anchor server.parseTracerouteParams no longer resolves")
